@@ -1,6 +1,7 @@
 (* C16 -- Polynomials of the strategy's degree are reproduced exactly. *)
 From Coq Require Import List Bool Arith ZArith QArith Qcanon.
-From NI Require Import Num Base Lookup Linear Interp Spline SplineAlgebra LinearExact Units.
+From NI Require Import Num Base Lookup Linear Interp Spline Tri TriProofs SplineAlgebra LookupProofs LinearProofs LinearExact
+  SplineProofs Units SplineIndividual Repro ReproIndividual.
 Import ListNotations.
 Local Open Scope Qc_scope.
 
@@ -63,6 +64,68 @@ Theorem C16_cubic_piece_reproduces : forall p0 p1 p2 p3 x h u : Qc, h <> 0 ->
         (cb (dP p1 p2 p3 (x + h)) h (P p0 p1 p2 p3 (x + h) - P p0 p1 p2 p3 x)) h u = P p0 p1 p2 p3 (x + u).
 Proof. exact cubic_piece_reproduces. Qed.
 Print Assumptions C16_cubic_piece_reproduces.
-(* Partial: assembling these row identities into [sat (sys_rows ..) (map dP xs)] for a whole
-   axis (index bookkeeping) is not done in Coq; the end-to-end statement is checked exactly on
-   the implementation and the model by the correspondence. *)
+
+(* End to end, whole-data-set boundaries: if lane j of the data is a cubic sampled at the knots
+   and the cubic satisfies the selected end conditions (NotAKnot: always; Natural / Clamped: the
+   cubic's own S''=0 / S'=0 at the ends, e.g. Natural and a straight line; 3 knots with NotAKnot on
+   both ends: a parabola), then EVERY answered query -- inside the range and, with extrapolation,
+   outside it -- returns the cubic's value in lane j *)
+Theorem C16_spline_reproduces_cubic :
+  forall (xs : list Qc) (data : list (list Qc)) (L : nat),
+  (forall i, (i < length data)%nat -> length (nth i data []) = L) ->
+  StrictIncQc xs -> length xs = length data -> (3 <= length data)%nat ->
+  (Z.of_nat (length data) <= two64)%Z -> (0 < L)%nat ->
+  forall (b : bc Qc) (l r : single Qc) (ext : bool) (trail : list nat) (sp : spline_strat) (j : nat)
+         (p0 p1 p2 p3 : Qc),
+    whole_lr b = Some (l, r) -> (j < L)%nat ->
+    (forall i, (i < length data)%nat -> yq data j i = P p0 p1 p2 p3 (nth i xs 0)) ->
+    left_ok xs p1 p2 p3 l -> right_ok xs data p1 p2 p3 r ->
+    ((length data =? 3)%nat && is_nak l && is_nak r = true -> p3 = 0) ->
+    spline_build NumQc b ext xs data trail = Ok sp ->
+    forall x, (ext = false -> in_closed_range NumQc 0 xs x = true) ->
+      exists v, spline_interp NumQc sp xs data x = Ok v /\ length v = L /\
+                nth j v 0 = P p0 p1 p2 p3 x.
+Proof. exact spline_reproduces_cubic. Qed.
+Print Assumptions C16_spline_reproduces_cubic.
+
+(* the same per lane (Individual): FirstDeriv / SecondDeriv values taken from the lane's cubic, in any
+   mix with NotAKnot, reproduce that cubic in that lane *)
+Theorem C16_spline_reproduces_cubic_individual :
+  forall (xs : list Qc) (data : list (list Qc)) (L : nat),
+  (forall i, (i < length data)%nat -> length (nth i data []) = L) ->
+  StrictIncQc xs -> length xs = length data -> (3 <= length data)%nat ->
+  (Z.of_nat (length data) <= two64)%Z -> (0 < L)%nat ->
+  forall (per_lane : list (rowbc Qc)) (shape : list nat) (ext : bool) (trail : list nat)
+         (sp : spline_strat) (j : nat) (rb : rowbc Qc) (p0 p1 p2 p3 : Qc),
+    (j < L)%nat -> nth_error per_lane j = Some rb ->
+    (forall i, (i < length data)%nat -> yq data j i = P p0 p1 p2 p3 (nth i xs 0)) ->
+    left_ok xs p1 p2 p3 (fst (lane_lr rb)) -> right_ok xs data p1 p2 p3 (snd (lane_lr rb)) ->
+    ((length data =? 3)%nat && is_nak (fst (lane_lr rb)) && is_nak (snd (lane_lr rb)) = true -> p3 = 0) ->
+    spline_build NumQc (BIndividual per_lane shape) ext xs data trail = Ok sp ->
+    forall x, (ext = false -> in_closed_range NumQc 0 xs x = true) ->
+      exists v, spline_interp NumQc sp xs data x = Ok v /\ length v = L /\
+                nth j v 0 = P p0 p1 p2 p3 x.
+Proof. exact spline_reproduces_cubic_individual. Qed.
+Print Assumptions C16_spline_reproduces_cubic_individual.
+
+(* the end conditions a cubic must meet, spelled out (non-vacuity of the hypotheses above) *)
+Example C16_left_ok_cases : forall xs p1 p2 p3,
+  left_ok xs p1 p2 p3 SNotAKnot /\
+  (left_ok xs p1 p2 p3 SNatural <-> c0 NumQc = d2P p2 p3 (nth 0 xs 0)) /\
+  (left_ok xs p1 p2 p3 SClamped <-> c0 NumQc = dP p1 p2 p3 (nth 0 xs 0)) /\
+  (forall v, left_ok xs p1 p2 p3 (SFirstDeriv v) <-> v = dP p1 p2 p3 (nth 0 xs 0)) /\
+  (forall v, left_ok xs p1 p2 p3 (SSecondDeriv v) <-> v = d2P p2 p3 (nth 0 xs 0)).
+Proof. intros. unfold left_ok. cbn. repeat split; auto. Qed.
+
+Example C16_ex : (* NotAKnot on 4 knots reproduces x^3 at x = 5/2 (and outside the range at 7) *)
+  match spline_build NumQc BNotAKnot true [qc 0 1; qc 1 1; qc 3 1; qc 4 1]
+          [[qc 0 1]; [qc 1 1]; [qc 27 1]; [qc 64 1]] [] with
+  | Ok sp =>
+      match spline_interp NumQc sp [qc 0 1; qc 1 1; qc 3 1; qc 4 1] [[qc 0 1]; [qc 1 1]; [qc 27 1]; [qc 64 1]] (qc 5 2),
+            spline_interp NumQc sp [qc 0 1; qc 1 1; qc 3 1; qc 4 1] [[qc 0 1]; [qc 1 1]; [qc 27 1]; [qc 64 1]] (qc 7 1) with
+      | Ok [v], Ok [w] => qc_eqb v (qc 125 8) && qc_eqb w (qc 343 1)
+      | _, _ => false
+      end
+  | _ => false
+  end = true.
+Proof. vm_compute. reflexivity. Qed.
